@@ -16,6 +16,7 @@ import hashlib
 import io
 import linecache
 import os
+import posixpath
 import random
 import sys
 import tokenize  # noqa: F401  (imported here so it captures the *real* open)
@@ -34,6 +35,7 @@ _REAL = {
 FAKE_FD_BASE = 1_000_000   # never a valid real descriptor: a stray real syscall gets EBADF
 
 SIMROOT = "/simfs/"
+VCWD = "/simfs/cwd/"      # the (empty) working directory of the simulated process
 TOOL_ID = 4  # sys.monitoring tool id (0 debugger, 1 coverage, 2 profiler, 5 optimizer)
 
 
@@ -385,6 +387,8 @@ class SimFS:
         self.readers = {}   # path -> [TracedReader]
         self.damaged = {}   # path -> iterable of damaged offsets
         self.removed = []   # paths removed by the tool
+        self.whiteouts = set()  # real paths the tool "removed" (the real file is never touched)
+        self.dirs = set()       # directories the tool created
         self.log = EventLog()
 
     @staticmethod
@@ -413,17 +417,17 @@ class SimFS:
         d = self.files.get(path)
         return None if d is None else bytes(d)
 
-    def exists(self, path):
-        p = self.norm(path)
+    def exists(self, path, vpath=None):
+        p = vpath or self.norm(path)
         if p in self.files:
             return True
         pre = p.rstrip("/") + "/"
         return any(k.startswith(pre) for k in self.files) or p.rstrip("/") + "/" == SIMROOT
 
     def open(self, file, mode="r", buffering=-1, encoding=None, errors=None, newline=None,
-             closefd=True, opener=None):
-        path = self.norm(file)
-        name = file if isinstance(file, str) else path
+             closefd=True, opener=None, vpath=None):
+        path = vpath or self.norm(file)
+        name = file if isinstance(file, str) else self.norm(file)
         m = set(mode)
         binary = "b" in m
         plus = "+" in m
@@ -444,6 +448,7 @@ class SimFS:
             self.files[path] = bytearray()
         elif kind == "a":
             self.files.setdefault(path, bytearray())
+        self.whiteouts.discard(path)
         readable = kind == "r" or plus
         writable = kind != "r" or plus
         raw = SimRawFile(self, path, name, readable, writable, append=(kind == "a"))
@@ -466,8 +471,8 @@ class SimFS:
             return tr
         return buf
 
-    def remove(self, path):
-        p = self.norm(path)
+    def remove(self, path, vpath=None):
+        p = vpath or self.norm(path)
         if p not in self.files:
             raise FileNotFoundError(2, "No such file or directory", path)
         del self.files[p]
@@ -575,15 +580,18 @@ class World:
         return self.fds.get(fd)
 
     def _os_open(self, path, flags, mode=0o777, *a, **kw):
-        if not SimFS.is_sim(path):
-            p = SimFS.norm(path)
-            if not os.path.isabs(p):
-                raise FileNotFoundError(2, "No such file or directory", path)
-            if flags & (os.O_WRONLY | os.O_RDWR | os.O_CREAT | os.O_TRUNC | os.O_APPEND):
-                raise HarnessError("tool tried to os.open a real path for writing: %r" % (path,))
+        writing = bool(flags & (os.O_WRONLY | os.O_RDWR | os.O_CREAT | os.O_TRUNC | os.O_APPEND))
+        p = self._vpath(path, writing)
+        if p is None:
             return _REAL["os_open"](path, flags, mode, *a, **kw)
-        p = SimFS.norm(path)
         fs = self.fs
+        if p in fs.whiteouts and not flags & os.O_CREAT:
+            raise FileNotFoundError(2, "No such file or directory", path)
+        if p not in fs.files and not p.startswith(SIMROOT) and _REAL["isfile"](p) \
+                and p not in fs.whiteouts and not flags & os.O_TRUNC:
+            with _REAL["open"](p, "rb") as f:      # copy-up
+                fs.files[p] = bytearray(f.read())
+        fs.whiteouts.discard(p)
         if p in fs.files:
             if flags & os.O_CREAT and flags & os.O_EXCL:
                 raise FileExistsError(17, "File exists", path)
@@ -653,15 +661,18 @@ class World:
         if isinstance(path, int):
             return self._os_fstat(path)
         try:
-            sim = SimFS.is_sim(path)
+            vp = self._vpath(path)
         except Exception:
-            sim = False
-        if sim:
-            d = self.fs.files.get(SimFS.norm(path))
-            if d is None:
-                raise FileNotFoundError(2, "No such file or directory", path)
+            vp = None
+        if vp is None:
+            return _REAL["os_stat"](path, *a, **kw)
+        d = self.fs.files.get(vp)
+        if d is not None:
             return self._stat_result(len(d))
-        return _REAL["os_stat"](path, *a, **kw)
+        if self._isdir(path):
+            import stat
+            return os.stat_result((stat.S_IFDIR | 0o755, 1, 1, 1, 0, 0, 0, 0, 0, 0))
+        raise FileNotFoundError(2, "No such file or directory", path)
 
     def _os_isatty(self, fd):
         if fd in (0, 1, 2) or fd in self.fds:
@@ -681,38 +692,42 @@ class World:
         return _REAL["os_ftruncate"](fd, size)
 
     def _os_rename(self, src, dst, *a, **kw):
-        ssim, dsim = SimFS.is_sim(src), SimFS.is_sim(dst)
-        if not ssim and not dsim:
-            if not os.path.isabs(SimFS.norm(src)):
-                raise FileNotFoundError(2, "No such file or directory", src)
-            raise HarnessError("tool tried to rename a real path %r" % (src,))
-        if ssim != dsim:
-            raise OSError(18, "Invalid cross-device link", src)
-        s_, d_ = SimFS.norm(src), SimFS.norm(dst)
+        s_ = self._vpath(src, writing=True)
+        d_ = self._vpath(dst, writing=True)
         if s_ not in self.fs.files:
-            raise FileNotFoundError(2, "No such file or directory", src)
+            if s_ in self.fs.whiteouts or s_.startswith(SIMROOT) or not _REAL["isfile"](s_):
+                raise FileNotFoundError(2, "No such file or directory", src)
+            with _REAL["open"](s_, "rb") as f:      # renaming a real file: copy-up + whiteout
+                self.fs.files[s_] = bytearray(f.read())
         self.fs.files[d_] = self.fs.files.pop(s_)
+        if not s_.startswith(SIMROOT):
+            self.fs.whiteouts.add(s_)
+        self.fs.whiteouts.discard(d_)
         return None
 
     def _isdir(self, path):
         try:
-            if SimFS.is_sim(path):
-                p = SimFS.norm(path).rstrip("/") + "/"
-                return p == SIMROOT or any(k.startswith(p) for k in self.fs.files)
+            p = self._vpath(path, writing=True).rstrip("/") + "/"
         except Exception:
+            return False
+        if p in (SIMROOT, VCWD) or p in self.fs.dirs or any(k.startswith(p) for k in self.fs.files):
+            return True
+        if p.startswith(SIMROOT):
             return False
         return _REAL["isdir"](path)
 
     def _os_makedirs(self, path, *a, **kw):
-        if SimFS.is_sim(path):
-            return None
-        raise HarnessError("tool tried to create a real directory %r" % (path,))
+        self.fs.dirs.add(self._vpath(path, writing=True).rstrip("/") + "/")
+        return None
 
     def _os_listdir(self, path="."):
-        if not isinstance(path, int) and SimFS.is_sim(path):
-            p = SimFS.norm(path).rstrip("/") + "/"
-            return sorted(set(k[len(p):].split("/")[0] for k in self.fs.files if k.startswith(p)))
-        return _REAL["os_listdir"](path)
+        if isinstance(path, int):
+            return _REAL["os_listdir"](path)
+        p = self._vpath(path, writing=True).rstrip("/") + "/"
+        names = set(k[len(p):].split("/")[0] for k in self.fs.files if k.startswith(p))
+        if not p.startswith(SIMROOT) and _REAL["isdir"](p):
+            names |= set(n for n in _REAL["os_listdir"](p) if p + n not in self.fs.whiteouts)
+        return sorted(names)
 
     def _fileio(self, file, mode="r", closefd=True, opener=None):
         """io.FileIO as the tools can reach it: descriptors 0/1, fake descriptors and
@@ -724,8 +739,10 @@ class World:
             if file == 2:
                 raise HarnessError("tool opened descriptor 2 as a raw file")
             return _REAL["FileIO"](file, mode, closefd, opener)
-        if SimFS.is_sim(file):
-            b = self.fs.open(file, mode.replace("b", "") + "b")
+        writing = bool(set(mode) & set("wax+"))
+        vp = self._vpath(file, writing)
+        if vp is not None:
+            b = self.fs.open(file, mode.replace("b", "") + "b", vpath=vp)
             return getattr(b, "raw", None) or b._buf.raw
         return _REAL["FileIO"](file, mode, closefd, opener)
 
@@ -756,54 +773,75 @@ class World:
         return txt
 
     # patched entry points ------------------------------------------------
+    # The simulated file system is an overlay: every write lands in SimFS (the real disk is
+    # never touched), reads see SimFS first and the real disk (read-only) behind it, and
+    # relative paths live in an empty virtual working directory.
+    def _vpath(self, path, writing=False):
+        """Virtual path if SimFS must serve `path`, else None (real, read-only)."""
+        p = SimFS.norm(path)
+        if not posixpath.isabs(p):
+            return posixpath.normpath(VCWD + p)
+        p = posixpath.normpath(p)
+        if writing or p.startswith(SIMROOT) or p in self.fs.files or p in self.fs.whiteouts:
+            return p
+        return None
+
     def _open(self, file, mode="r", *a, **kw):
         if isinstance(file, int) and not isinstance(file, bool):
             return self._open_fd(file, mode, *a, **kw)
-        if not isinstance(file, int) and SimFS.is_sim(file):
-            return self.fs.open(file, mode, *a, **kw)
-        if isinstance(file, (str, bytes, os.PathLike)) and not os.path.isabs(SimFS.norm(file)):
-            # the simulated process runs in an empty current directory
-            if set(mode) & set("wax+"):
-                raise HarnessError("tool tried to write a relative path %r" % (file,))
+        writing = bool(set(mode) & set("wax+"))
+        vp = self._vpath(file, writing)
+        if vp is None:
+            return _REAL["open"](file, mode, *a, **kw)
+        if vp in self.fs.whiteouts and not writing:
             raise FileNotFoundError(2, "No such file or directory", file)
-        if not isinstance(file, int) and set(mode) & set("wax+"):
-            raise HarnessError("tool tried to write outside SimFS: %r" % (file,))
-        return _REAL["open"](file, mode, *a, **kw)
+        if "+" in mode and "r" in mode and vp not in self.fs.files and not vp.startswith(SIMROOT) \
+                and _REAL["isfile"](vp):
+            with _REAL["open"](vp, "rb") as f:      # copy-up for r+
+                self.fs.files[vp] = bytearray(f.read())
+        return self.fs.open(file, mode, *a, vpath=vp, **kw)
 
     def _remove(self, path, *a, **kw):
-        if SimFS.is_sim(path):
-            return self.fs.remove(path)
-        p = SimFS.norm(path)
-        if not os.path.isabs(p):
+        vp = self._vpath(path)
+        if vp is None:
+            real = posixpath.normpath(SimFS.norm(path))
+            if not _REAL["exists"](real):
+                raise FileNotFoundError(2, "No such file or directory", path)
+            self.fs.whiteouts.add(real)
+            self.fs.removed.append(real)
+            return None
+        if vp in self.fs.whiteouts:
             raise FileNotFoundError(2, "No such file or directory", path)
-        raise HarnessError("tool tried to remove a real path %r" % (path,))
+        return self.fs.remove(path, vpath=vp)
 
     def _getsize(self, path):
-        if SimFS.is_sim(path):
-            d = self.fs.files.get(SimFS.norm(path))
-            if d is None:
-                raise FileNotFoundError(2, "No such file or directory", path)
-            return len(d)
-        p = SimFS.norm(path)
-        if not os.path.isabs(p):
+        vp = self._vpath(path)
+        if vp is None:
+            return _REAL["getsize"](path)
+        d = self.fs.files.get(vp)
+        if d is None:
             raise FileNotFoundError(2, "No such file or directory", path)
-        return _REAL["getsize"](path)
+        return len(d)
 
     def _exists(self, path):
         try:
-            if SimFS.is_sim(path):
-                return self.fs.exists(path)
+            vp = self._vpath(path)
         except Exception:
             return False
-        return _REAL["exists"](path)
+        if vp is None:
+            return _REAL["exists"](path)
+        if vp in self.fs.whiteouts:
+            return False
+        return self.fs.exists(path, vpath=vp) or self._isdir(path)
 
     def _isfile(self, path):
         try:
-            if SimFS.is_sim(path):
-                return SimFS.norm(path) in self.fs.files
+            vp = self._vpath(path)
         except Exception:
             return False
-        return _REAL["isfile"](path)
+        if vp is None:
+            return _REAL["isfile"](path)
+        return vp in self.fs.files
 
     def __enter__(self):
         if builtins.open is not _REAL["open"]:
